@@ -71,7 +71,7 @@ func (c *chaosGen) arg(pt reflect.Type, depth int) (dt.Arg, bool) {
 	t := c.t
 	switch {
 	case pt == funcType:
-		return dt.Fn(c.body(depth-1)...), true
+		return dt.Fn(c.body(depth - 1)...), true
 	case pt.Kind() == reflect.String && pt.PkgPath() == "":
 		return dt.S(rapid.SampledFrom(chaosStrings).Draw(t, "str")), true
 	case pt.Kind() == reflect.Int:
@@ -123,7 +123,7 @@ func (c *chaosGen) anyArg(depth int) dt.Arg {
 		return dt.List(dt.S("x"), dt.I(1))
 	default:
 		if depth > 0 {
-			return dt.Fn(c.body(depth-1)...)
+			return dt.Fn(c.body(depth - 1)...)
 		}
 		return dt.S("x")
 	}
